@@ -277,3 +277,24 @@ class BaseItemMixin(metaclass=ABCMeta):
         self.attrs._clear()
         self._clear_autocharges()
         self._type = None
+
+
+# Verification hook (guarded, add-only): when EOS_VERIF=1 items hash by a
+# harness-salted serial number instead of their memory address, so that the
+# iteration order of the engine's internal sets of items becomes a parameter
+# the verification harness can vary (equality stays identity).
+import os as _os
+if _os.environ.get('EOS_VERIF') == '1':
+    import itertools as _itertools
+
+    _verif_serial = _itertools.count(1)
+
+    def _verif_hash(self):
+        try:
+            return self._verif_hash_value
+        except AttributeError:
+            salt = getattr(BaseItemMixin, '_verif_salt', 0)
+            self._verif_hash_value = hash((salt, next(_verif_serial)))
+            return self._verif_hash_value
+
+    BaseItemMixin.__hash__ = _verif_hash
